@@ -44,6 +44,10 @@ def run_proofs(rep: Report, mods: List[str], keys: List[str], replays: Dict[str,
             rep.extra.setdefault("untranslatable_targets", []).append({"target": key, "reason": r.get("detail", "")[-400:], "locked_obligations": len(locked)})
             if r["status"] == "engine-error":
                 rep.errors.append("pyvc engine error on %s: %s" % (key, r.get("detail", "")[-600:]))
+            elif locked:
+                # the obligations of this target were discharged on the pinned tree and cannot even be generated now (the body left the
+                # translatable subset, or the wall limit hit): coverage is lost -> exit 2 (undecided), neither "held" nor a VIOLATION
+                rep.extra.setdefault("undecided_locked_targets", []).append("%s: %d locked obligation(s) cannot be decided now (%s: %s)" % (key, len(locked), r["status"], r.get("detail", "")[-200:]))
             continue
         for ip in r["info"].get("inconsistent_paths", []):
             rep.errors.append("inconsistent assumptions: the ground expansion of the facts on path %s of %s is unsatisfiable (every obligation on it would be vacuous)" % (ip, key))
